@@ -109,6 +109,7 @@ theorem scriptCall_notPhase (rt : Rt) (t : Option Nat) (c : Call) : isPhase (scr
     · rfl
     · cases startReject rt <;> rfl
   · cases runReject rt <;> rfl
+  · rfl
 
 theorem scriptOp_notPhase (self : Nat) (rt : Rt) (ctx : Ctx) (op : SOp) : isPhase (scriptOp self rt ctx op) = false := by
   cases op with
